@@ -38,6 +38,13 @@ def zval(model, e):
         return False
     if z3.is_string_value(v):
         return v.as_string()
+    if z3.is_fp_value(v):
+        if v.isNaN():
+            return float("nan")
+        if v.isInf():
+            return float("-inf") if v.isNegative() else float("inf")
+        return float(fractions.Fraction(v.significand_as_long(), 2 ** (v.sbits() - 1)) *
+                     fractions.Fraction(2) ** v.exponent_as_long(False)) * (-1.0 if v.isNegative() else 1.0)
     raise CannotConcretize(f"value {v} of sort {v.sort()}")
 
 
@@ -71,7 +78,7 @@ def concretize(v, model, memo=None):
         dt = {"real": torch.float64, "bool": torch.bool, "int": torch.int64}[v.dtype]
         t = torch.tensor(flat, dtype=dt).reshape(dims)
         if v.dtype == "real":
-            t = t.float() if all(abs(x) < 1e30 for x in flat) else t
+            t = t.float() if all((x != x) or abs(x) < 1e30 or abs(x) == float("inf") for x in flat) else t
         memo[id(v)] = t
         return t
     if isinstance(v, Symbolic):
@@ -95,12 +102,12 @@ def close(a, b, tol=1e-6):
         return bool(a) == bool(b)
     if isinstance(a, (int, float)) and isinstance(b, (int, float)):
         if math.isnan(a) or math.isnan(b):
-            return False
+            return math.isnan(a) and math.isnan(b)
         return abs(a - b) <= tol * max(1.0, abs(a), abs(b))
     if isinstance(a, torch.Tensor) and isinstance(b, torch.Tensor):
         if a.shape != b.shape:
             return False
-        return bool(torch.allclose(a.double(), b.double(), rtol=tol, atol=tol, equal_nan=False))
+        return bool(torch.allclose(a.double(), b.double(), rtol=tol, atol=tol, equal_nan=True))
     if isinstance(a, torch.Tensor) and isinstance(b, (int, float)) and a.numel() == 1:
         return close(a.item(), b, tol)
     if isinstance(b, torch.Tensor):
